@@ -146,6 +146,10 @@ func (c13Engine) Gen(seed uint64, idx int, tier string) interface{} {
 	if r.Chance(1, 6) {
 		sc.Layout.Mode = 0
 	}
+	if r.Chance(1, 3) {
+		sc.Layout.Lead = r.Pick([]string{" ", "\n", "\n\n  ", "\t", "  \n "})
+		sc.Layout.Trail = r.Pick([]string{"", " ", "\n", " \n\n"})
+	}
 	for attempt := 0; ; attempt++ {
 		sc.Env = healthyEnv(r)
 		cfg := GenCfg{Budget: r.Range(8, 44), Calls: true, Dyn: true, Failing: true, Strings: true, Closures: r.Chance(3, 4), Maps: r.Chance(1, 2),
